@@ -41,8 +41,13 @@ class LogDest : public QIODevice
 {
 public:
     Faults *f; QStringList *obs; int writes = 0;
+    // a destination that queues what it is given (as a socket does): bytesToWrite() reports the backlog,
+    // `dack` takes some of it off and announces that with bytesWritten()
+    bool buffered = false; qint64 pending = 0;
     LogDest(Faults *ff, QStringList *o) : f(ff), obs(o) {}
     bool isSequential() const override { return true; }
+    qint64 bytesToWrite() const override { return buffered ? pending : 0; }
+    void ack(qint64 n) { qint64 k = qMin(n, pending); if (k <= 0) return; pending -= k; Q_EMIT bytesWritten(k); }
     bool open(OpenMode m) override { return f->dstOpen ? false : QIODevice::open(m); }
 protected:
     qint64 readData(char *, qint64) override { return 0; }
@@ -50,6 +55,7 @@ protected:
     {
         if (writes++ == f->writeAt) return -1;
         if (n > 0) obs->append("x:1:" + hx(QByteArray(d, n)));
+        if (buffered && n > 0) pending += n;
         return n;
     }
 };
@@ -62,9 +68,11 @@ void runCopier(const Scn &scn, Out &out)
     Faults f;
     QByteArray content; bool seq = false; qint64 block = 65536; bool hasRange = false; qint64 rf = 0, rt = -1;
     QStringList events;
+    bool dbuf = false;
     foreach (const QString &t, scn.toks) {
         QStringList p = t.split(':');
         if (p[0] == "src") content = unhx(p[1]);
+        else if (p[0] == "dbuf") dbuf = true;
         else if (p[0] == "seq") seq = true;
         else if (p[0] == "block") block = p[1].toLongLong();
         else if (p[0] == "range") { hasRange = true; rf = p[1].toLongLong(); rt = p[2].toLongLong(); }
@@ -77,6 +85,7 @@ void runCopier(const Scn &scn, Out &out)
     MemSrc *mem = nullptr; SeqSrc *ss = nullptr; QIODevice *src;
     if (seq) { ss = new SeqSrc(&f); src = ss; } else { mem = new MemSrc(&f); mem->setData(content); src = mem; }
     LogDest *dst = new LogDest(&f, obs);
+    dst->buffered = dbuf;
     QIODeviceCopier *copier = new QIODeviceCopier(src, dst);
     copier->setBufferSize(block);
     if (hasRange) copier->setRange(rf, rt);
@@ -85,6 +94,9 @@ void runCopier(const Scn &scn, Out &out)
     int k = 0;
     foreach (const QString &t, events) {
         QStringList p = t.split(':');
+        // the destination takes bytes off its backlog: not an event of the copier's protocol (the copier is
+        // not entitled to depend on it), so it carries no marker
+        if (p[0] == "dack") { dst->ack(p[1].toLongLong()); continue; }
         *obs << QString("e:%1").arg(k++);
         if (p[0] == "start") copier->start();
         else if (p[0] == "turn") QCoreApplication::processEvents();
